@@ -10,6 +10,14 @@ from __future__ import annotations
 import numpy as np
 
 
+# sizes of large inputs: blocking schemes cut at powers of two, and their off-by-one mistakes show one element before / after
+BOUNDARY_SIZES = [1023, 1024, 1025, 1100, 2047, 2048, 2049, 1500]
+
+
+def boundary_size(k):
+    return BOUNDARY_SIZES[k % len(BOUNDARY_SIZES)]
+
+
 def index_map(rng, m, big):
     """every element is used at least once; the remaining positions copy random elements; shuffled"""
     idx = list(range(m)) + [rng.randrange(m) for _ in range(max(0, big - m))]
